@@ -685,7 +685,8 @@ pub fn check_main(args: &[String]) -> i32 {
         "violations": unknown_violations,
         "known_findings_seen": known_lines.iter().cloned().collect::<Vec<_>>(),
     });
-    let evdir = known::verif_root().join("evidence");
+    // (sensitivity experiments against seeded changes write their evidence elsewhere)
+    let evdir = std::env::var("VERIF_EVIDENCE_DIR").map(std::path::PathBuf::from).unwrap_or_else(|_| known::verif_root().join("evidence"));
     let _ = std::fs::create_dir_all(&evdir);
     let _ = std::fs::write(evdir.join(format!("{}.json", prop)), serde_json::to_string_pretty(&evidence).unwrap());
 
